@@ -28,11 +28,68 @@ RULE = ("seeded generator of handler configurations: array rank 2-4, 1-3 distrib
         "whose destination block was compared count.")
 ASSUMPTIONS = ["simulated MPI layer (threads as ranks) is faithful for Create_cart/Sub/Alltoall (self-tested before every run)",
                "process counts up to 6 (quick) / 12 (thorough); extents up to 9 (12 thorough)"]
-REQUIRED_EVENTS = {"Alltoall": 1, "transposes_compared": 1, "redirect_transposes": 1}
+REQUIRED_EVENTS = {"Alltoall": 1, "transposes_compared": 1, "redirect_transposes": 1, "transposes_with_4_or_more_exchanges": 1}
 CASE_TIMEOUT = {"quick": 300, "thorough": 900}
 
 PHYS = {'flux_surface': [0, 3, 1, 2], 'v_parallel': [0, 2, 1, 3], 'poloidal': [3, 2, 1, 0]}
 _PRIMES = [2, 3, 5, 7, 11, 13]
+
+
+def _compatible(nprocs, a, b):
+    return sum(1 for i, n in enumerate(nprocs) if n > 1 and a[i] != b[i]) < 2
+
+
+def _diameter(nprocs, lays):
+    names = list(lays)
+    best = 0
+    for s_ in names:
+        dist = {s_: 0}
+        frontier = [s_]
+        while frontier:
+            nxt = []
+            for u in frontier:
+                for v in names:
+                    if v not in dist and _compatible(nprocs, lays[u], lays[v]):
+                        dist[v] = dist[u] + 1
+                        nxt.append(v)
+            frontier = nxt
+        if len(dist) < len(names):
+            return -1
+        best = max(best, max(dist.values()))
+    return best
+
+
+def _chain_layouts(rng, nd, nprocs):
+    """layout sets that are LONG CHAINS in the connection graph (each layout obtained from the previous one by exchanging one
+    distributed position with a non-distributed one), kept when some pair is four or more direct transposes apart: random sets of
+    orderings almost never need more than three steps, so routes of 4, 5, ... steps (with and without a spare buffer) were never driven"""
+    ndist = len(nprocs)
+    dpos = [i for i, n in enumerate(nprocs) if n > 1]
+    best = None
+    for _try in range(60):
+        p = list(range(nd))
+        rng.shuffle(p)
+        seq = [tuple(p)]
+        for _step in range(rng.randint(4, 7)):
+            for _t in range(20):
+                i = rng.choice(dpos)
+                j = rng.randrange(ndist, nd)
+                q = list(seq[-1])
+                q[i], q[j] = q[j], q[i]
+                if tuple(q) not in seq:
+                    seq.append(tuple(q))
+                    break
+        lays = {"L%d_%s" % (i, "".join(map(str, q))): list(q) for i, q in enumerate(seq)}
+        d = _diameter(nprocs, lays)
+        if best is None or d > best[0]:
+            best = (d, lays)
+        if d >= 4:
+            break
+    if best is None or best[0] < 4:
+        return None
+    items = list(best[1].items())
+    rng.shuffle(items)
+    return dict(items)
 
 
 def gen_config(rng, Pmax, nmax):
@@ -49,7 +106,12 @@ def gen_config(rng, Pmax, nmax):
             nprocs = [rng.randint(1, 4) for _ in range(ndist)]
         if int(np.prod(nprocs)) <= Pmax:
             break
-    if nd == 4 and ndist <= 2 and rng.random() < 0.45:
+    chain = None
+    if nd >= 3 and sum(1 for n in nprocs if n > 1) >= 2 and nd > ndist and rng.random() < 0.3:
+        chain = _chain_layouts(rng, nd, nprocs)
+    if chain is not None:
+        layouts = chain
+    elif nd == 4 and ndist <= 2 and rng.random() < 0.45:
         layouts = {k: list(v) for k, v in PHYS.items()}
     else:
         perms = list(itertools.permutations(range(nd)))
@@ -170,7 +232,9 @@ def run_case(case):
                     out["n"] += 1
                     if k > 1:
                         out["redirect"] += 1
-                    kind = "same" if a == b else ("local" if k == 0 else ("alltoall1" if k == 1 else "redirect"))
+                    kind = "same" if a == b else ("local" if k == 0 else ("alltoall1" if k == 1 else ("redirect" if k < 4 else "redirect4+")))
+                    if k >= 4:
+                        out["long"] = out.get("long", 0) + 1
                     out["cls"].add("%s/%s/%s" % (base, kind, "buf" if wb else "nobuf"))
                     if msg:
                         out["bad"].append("%s->%s %s (%d Alltoall): %s" % (a, b, "with buffer" if wb else "no buffer", k, msg))
@@ -223,6 +287,7 @@ def run_case(case):
     cls = sorted(set(c for r in res for c in r["cls"]))
     ev["transposes_compared"] = sum(r["n"] for r in res)
     ev["redirect_transposes"] = sum(r["redirect"] for r in res)
+    ev["transposes_with_4_or_more_exchanges"] = sum(r.get("long", 0) for r in res)
     if w.unmatched():
         bad.append("unmatched collectives left at exit: %r" % (w.unmatched()[:3],))
     if bad:
